@@ -11,9 +11,9 @@ run_one() {
   d=$1; tier=$2
   id=$(basename $d)
   prop=$(echo $id | grep -o 'C[0-9][0-9]' | head -1)
-  extra=$(grep "^$id:" /verif/tools/mutant_extra.txt 2>/dev/null | cut -d: -f2 | tr ',' ' ')
-  /verif/tools/run_mutant.sh $d $tier $prop $extra
+  extra=$(grep "^$id:" ${VERIF_TOOLS_HOME:-/verif}/tools/mutant_extra.txt 2>/dev/null | cut -d: -f2 | tr ',' ' ')
+  ${VERIF_TOOLS_HOME:-/verif}/tools/run_mutant.sh $d $tier $prop $extra
 }
 export -f run_one
-ls -d /verif/seeded/$glob | while read d; do [ -f $d/patch.diff ] && echo $d; done | xargs -P $par -I{} bash -c "run_one {} $tier" >> $out 2>&1
+ls -d ${VERIF_TOOLS_HOME:-/verif}/seeded/$glob | while read d; do [ -f $d/patch.diff ] && echo $d; done | xargs -P $par -I{} bash -c "run_one {} $tier" >> $out 2>&1
 echo done >> $out
